@@ -72,13 +72,13 @@ CHECKS = {
         "thorough": {"runs": 40000, "wall_s": 1500},
         "rule": "histories of 3..14 operations over {append, replicate, delete-from, hard state, membership, compaction (snapshot file + catalogue + pointer log), snapshot install (create_snapshot, InstallSnapshot, split-off, pointer), save-applied, advance past the flush timer, reopen} are executed once fault-free with PRNG disk latencies, settling after every operation (checkpoint = journal position + reference model); then EVERY prefix of the journal of file mutations (create, write, set_len, rename, unlink, flush marker) - or, above the per-history cap, every prefix adjacent to a non-data mutation plus PRNG positions - is materialised as a disk image and the real recovery is run on it; per image: reopens and answers, log contiguous, every entry equals the state before or after the interrupted operation, entries untouched by the interrupted operation present, last index/term consistent with the readable log, (term, vote) and membership equal to some value written before, last-applied <= max(snapshot, log), a further append at last+1 and a second reopen keep the log; evaluations = histories; non-trivial = at least 10 images checked; distinct = distinct event-log hash; crash images are counted under faults_fired.fault.crash_image",
         "probes": ["truncate_nonempty", "pointer_applied", "install_pointer_inside", "install_pointer_ahead", "image_catalogue_lists_missing_log"],
-        "assumptions": ASSUME_DISK + ["exhaustive over crash prefixes of each sampled history up to the cap (120 images per history quick, 400 thorough); histories are sampled", "an image whose catalogue lists an already unlinked log file and that then fails a clause is reported under the clause catalogue_lists_missing_log_file (known finding) and its other clauses are not evaluated", "state machine absent (Rig-L): snapshot files carry a header only; the start-up replay into the state machine is covered by C01"],
+        "assumptions": ASSUME_DISK + ["exhaustive over crash prefixes of each sampled history up to the cap (120 images per history quick, 400 thorough); histories are sampled", "an image whose catalogue lists a missing log file or a log file whose header starts at another index, and that then fails a clause is reported under the clause catalogue_out_of_step_with_log_files (known finding) and its other clauses are not evaluated", "state machine absent (Rig-L): snapshot files carry a header only; the start-up replay into the state machine is covered by C01"],
         "real": RIG_L_REAL,
         "stub": RIG_L_STUB,
     },
     "C01": {
         "level": "exploration",
-        "quick": {"runs": 640, "wall_s": 120},
+        "quick": {"runs": 3200, "wall_s": 120},
         "thorough": {"runs": 60000, "wall_s": 1500},
         "rule": "one complete node (real config_factory: all actors, async-raft, file store) with a swarm-chosen compaction threshold (5..40 entries) and disk latencies; seeded workload through the public routes (config publish with/without type and description, same-content publishes, remove; namespace set/delete; user add/update/remove; sequence ids and ranges; persistent instance register/remove) interleaved with clean stop + restart (1..n per run, always one at the end); at every restart: observation before the stop (records of the real RaftDataHandler::build_snapshot as a multiset + config GET/md5/type/desc/history for 30 keys + namespace list + user list + config listing) must equal the reference model and must equal the observation after the restart (polled up to 60 simulated s after the node reports the pre-stop log index applied); non-trivial = at least one restart and >= 5 steps; distinct = distinct event-log hash",
         "probes": ["restart_with_snapshot", "restart_right_after_compaction", "restart_snapshot_plus_suffix", "observed_partial_state_during_startup_load", "replay_applies_entries_already_in_snapshot", "default_admin_recreated_during_startup_load"],
@@ -88,7 +88,7 @@ CHECKS = {
     },
     "C07": {
         "level": "exploration",
-        "quick": {"runs": 640, "wall_s": 120},
+        "quick": {"runs": 3200, "wall_s": 120},
         "thorough": {"runs": 60000, "wall_s": 1500},
         "rule": "a real single-node leader applies a seeded workload (same alphabet as C01) through async-raft's leader path; its committed log is then read back and fed, entry for entry, into a second, passive complete node through the follower path (replicate_to_log + replicate_to_state_machine) with a PRNG split into batches (1, 2, 5, 20 or all), optionally with a clean restart of that node in the middle (start-up replay: snapshot + log up to the recorded applied index), optionally after a compaction; oracle: the full observation (as C01) of the follower-path node equals the leader's; non-trivial = >= 10 log entries; distinct = distinct event-log hash",
         "probes": ["follower_restarted_mid_log", "follower_compacted_before_restart"],
